@@ -795,3 +795,12 @@ fire("c15_operand_list_extended_in_place", ["C15", "C10"], [(ORIGIN, "          
 fire("c01_child_skipped_in_digest", "C01", [(NODE, "        for c, f, i in self.get_child_nodes_with_field(sort_keys=True):\n", "        for c, f, i in self.get_child_nodes_with_field(sort_keys=True):\n            if not f.compare:\n                continue\n")], "R-DIGEST-DEP")
 fire("c06_first_ancestor_early_none", "C06", [(TREE, "        for ancestor in self.get_ancestors(node):\n            if exact_type", "        if not ancestor_classes:\n            return None\n\n        for ancestor in self.get_ancestors(node):\n            if exact_type")], "R-TREE-TYPE")
 fire("c02_eq_memo_by_ids", "C02", [(NODE, "def _eq_fn(self: ASTNode, other: ASTNode) -> bool:\n", "_EQ_MEMO: dict[tuple[str, str], bool] = {}\n\n\ndef _eq_fn(self: ASTNode, other: ASTNode) -> bool:\n    if isinstance(other, ASTNode) and (self.id, other.id) in _EQ_MEMO:\n        return _EQ_MEMO[(self.id, other.id)]\n    if isinstance(other, ASTNode):\n        _EQ_MEMO[(self.id, other.id)] = self is other\n")], "R-EQ-FORM")
+
+# ---------------------------------------------------------------- rules added after round 7 (per-class memos, index presence, regex text)
+fire("c04_source_index_by_truth_value", "C04", [(ORIGIN, '        idx = data.get("idx")\n\n        if idx is None:', '        idx = data.get("idx")\n\n        if not idx:')], "R-IDX-PAIR")
+silent("c04_source_index_explicit_default", "C04", [(ORIGIN, '        idx = data.get("idx")\n\n        if idx is None:', '        idx = data.get("idx", None)\n\n        if idx is None:')])
+fire("c08_regex_text_unescaped", ["C08", "C17"], [(PATTERN, "        return RegexMatcher(_re_str=str(val[1:-1]))", "        return RegexMatcher(_re_str=str(val[1:-1]).replace('\\\\\\\\', '\\\\'))")], None)
+silent("c08_regex_text_through_local", ["C08", "C17"], [(PATTERN, "        return RegexMatcher(_re_str=str(val[1:-1]))", "        text = str(val[1:-1])\n        return RegexMatcher(_re_str=text)")])
+fire("c09_strict_remembered_per_visitor_class", "C09", [(NODE, "        visitor_method = None\n\n        if visitor.strict:", "        visitor_method = None\n\n        if type(visitor) not in _STRICT_BY_CLASS:\n            _STRICT_BY_CLASS[type(visitor)] = bool(visitor.strict)\n\n        if _STRICT_BY_CLASS[type(visitor)]:"), (NODE, "# Named Tuple for tree traversal functions\n", "_STRICT_BY_CLASS: dict[type, bool] = {}\n\n\n# Named Tuple for tree traversal functions\n")], "R-DISPATCH")
+fire("c18_child_fields_probed_once_per_class", "C18", [(LNODE, "        corresponding field and index (for lists and tuples).\"\"\"\n        for f in fields(self):\n            # Skip non-child fields\n            if not self._is_field_child(f):\n                continue\n", "        corresponding field and index (for lists and tuples).\"\"\"\n        cls = type(self)\n        if cls._child_fields_seen is None:\n            cls._child_fields_seen = tuple(f for f in fields(self) if self._is_field_child(f))\n        for f in cls._child_fields_seen:\n"), (LNODE, "        cls._child_fields = None\n", "        cls._child_fields = None\n        cls._child_fields_seen = None\n"), (LNODE, "    original_id: str | None = field(\n", "    _child_fields_seen: t.ClassVar[tuple[Field, ...] | None] = None\n\n    original_id: str | None = field(\n")], "R-LEG-LINK")
+fire("c07_findall_stops_at_first_indexed_child", "C07", [(XPATH, "                        if _match_node_element(c_info, el):\n                            if c_info not in new_work:\n                                new_work[c_info] = None\n            work = new_work", "                        if _match_node_element(c_info, el):\n                            if c_info not in new_work:\n                                new_work[c_info] = None\n                            if el.parent_index is not None:\n                                break\n            work = new_work")], "R-XP-FIND")
